@@ -303,12 +303,31 @@ def check(ctx):
         ctx.instance('C20.R4', 'gser child encode calls', 'undecided', 'no direct child.encode(value, separator, indent) call found (children may be encoded through a helper)', nontrivial=False)
 
     # ---- R5 / R6 on MembersType and Choice
-    mt = model.cls(F, 'MembersType').methods['encode']
-    gets = [n for n in walk_no_nested(mt) if isinstance(n, ast.Call) and isinstance(n.func, ast.Attribute) and n.func.attr in ('get', 'pop', 'setdefault')
-            and isinstance(n.func.value, ast.Name) and n.func.value.id == 'data']
-    none_tests = [n for n in walk_no_nested(mt) if isinstance(n, ast.Compare) and isinstance(n.ops[0], (ast.Is, ast.IsNot, ast.Eq, ast.NotEq))
-                  and isinstance(n.comparators[0], ast.Constant) and n.comparators[0].value is None]
-    member_in = [n for n in walk_no_nested(mt) if isinstance(n, ast.Compare) and isinstance(n.ops[0], ast.In) and ast.unparse(n.comparators[0]) == 'data']
+    mtc = model.cls(F, 'MembersType')
+    mt = mtc.methods['encode']
+    # encode and the steps it hands the value to (methods of the object, helpers of the module): (function, name of the value there)
+    fam5 = [(mt, flow.param_names(mt)[1])]
+    for g5, d5 in fam5:
+        for c5 in walk_no_nested(g5):
+            if not isinstance(c5, ast.Call) or len(fam5) > 8:
+                continue
+            tgt5 = None
+            if isinstance(c5.func, ast.Attribute) and isinstance(c5.func.value, ast.Name) and c5.func.value.id == 'self':
+                r5 = mtc.find_method(c5.func.attr)
+                tgt5 = (r5[1], [p_ for p_ in flow.param_names(r5[1]) if p_ != 'self']) if r5 else None
+            elif isinstance(c5.func, ast.Name):
+                r5 = model.mod(F).resolve_name(c5.func.id)
+                tgt5 = (r5, flow.param_names(r5)) if isinstance(r5, ast.FunctionDef) else None
+            if tgt5 is None or any(tgt5[0] is x_ for x_, _d in fam5):
+                continue
+            for i5, a5 in enumerate(c5.args):
+                if isinstance(a5, ast.Name) and a5.id == d5 and i5 < len(tgt5[1]):
+                    fam5.append((tgt5[0], tgt5[1][i5]))
+    gets = [n for g5, d5 in fam5 for n in walk_no_nested(g5) if isinstance(n, ast.Call) and isinstance(n.func, ast.Attribute) and n.func.attr in ('get', 'pop', 'setdefault')
+            and isinstance(n.func.value, ast.Name) and n.func.value.id == d5]
+    none_tests = [n for g5, d5 in fam5 for n in walk_no_nested(g5) if isinstance(n, ast.Compare) and isinstance(n.ops[0], (ast.Is, ast.IsNot, ast.Eq, ast.NotEq))
+                  and isinstance(n.comparators[0], ast.Constant) and n.comparators[0].value is None and d5 in names_in(n.left)]
+    member_in = [n for g5, d5 in fam5 for n in walk_no_nested(g5) if isinstance(n, ast.Compare) and isinstance(n.ops[0], ast.In) and ast.unparse(n.comparators[0]) == d5]
     ok = not gets and not none_tests and bool(member_in)
     ctx.instance('C20.R5', '%s presence test' % Model.qual(mt), '`name in data`' if ok else 'VIOLATION', node=mt, file=F)
     if not ok:
@@ -358,15 +377,16 @@ def check(ctx):
         f7 = c.methods.get('encode')
         if f7 is None or c.name in ('CompiledType', 'Compiler'):
             continue
-        dp = flow.param_names(f7)
-        if len(dp) < 2:
+        f7 = flow.unwrap_delegate(f7)          # `return bstring(data)`: the helper does the work
+        dp = [p_ for p_ in flow.param_names(f7) if p_ != 'self']
+        if len(dp) < 1:
             continue
-        dp = dp[1]
+        dp = dp[0]
         comps = sorted({n.slice.value for n in walk_no_nested(f7) if isinstance(n, ast.Subscript) and isinstance(n.value, ast.Name) and n.value.id == dp
                         and isinstance(n.slice, ast.Constant) and isinstance(n.slice.value, int)})
         if len(comps) < 2:
             continue
-        ps7 = sem.paths(f7, resolver=sem.class_resolver(c))
+        ps7 = sem.paths(f7, resolver=sem.class_resolver(c)) if getattr(f7, '_cls', None) is not None else sem.paths(f7)
         if ps7 is None:
             ctx.instance('C20.R7', Model.qual(f7), 'undecided', 'too many paths', nontrivial=False, node=f7, file=F)
             continue
@@ -392,7 +412,7 @@ def check(ctx):
                               'on the path [%s] the emitted text `%s` does not depend on %s (it is neither part of the text nor fixed by the conditions): values that differ only in '
                               'that component produce the same GSER text' % ('; '.join(('' if c_[1] else 'not ') + c_[0] for c_ in p.conds)[:200], text[:90], ', '.join(missing)),
                               stmt='text independent of %s' % ', '.join(missing))
-    if n7 < 3:
+    if n7 < 2:
         raise AnalysisError('C20.R7 examined only %d returning paths of composite encoders' % n7)
 
     # ---- R8 (sa/texttaint.py): the finished text of a child is composed, never rewritten
